@@ -518,7 +518,9 @@ func c32Rules(before, after c32State, assigned map[uint32]bool, ids []uint32, no
 			if len(liveB) > 0 && c32Consistent(liveB) {
 				if fmt.Sprint(after.docs[id]) != fmt.Sprint(before.docs[id]) {
 					kind := "assigned-repository-changed"
-					if len(after.docs[id]) == 0 {
+					if len(after.docs[id]) == 0 || strings.Contains(mode, "compound-shard-removed") {
+						// one root cause, one signature: a removed compound shard takes the
+						// repository's documents (or one of its copies) with it
 						kind = "assigned-repository-lost"
 					}
 					report(kind+"|"+mode, fmt.Sprintf("%s: assigned repository %d was searchable as %v before the cleanup and is %v after it; index entries before %v, after %v", ctx, id, before.docs[id], after.docs[id], c32Brief(liveB), c32Brief(liveA)))
@@ -653,7 +655,7 @@ func runC32(t *testing.T, tp *simrt.Tape, faults bool) hx.Result {
 	}
 	for _, id := range ids {
 		idxAge := time.Duration(tp.GenRange(1, 200)) * time.Hour
-		place := tp.Gen(16)
+		place := tp.Gen(17)
 		desc := ""
 		ok := true
 		switch place {
@@ -726,6 +728,11 @@ func runC32(t *testing.T, tp *simrt.Tape, faults bool) hx.Result {
 			compTomb[c] = append(compTomb[c], id)
 			desc = fmt.Sprintf("index:compound%d(tombstoned)+index:simple", c)
 			ok = put(indexDir, "simple1", id, now.Add(-idxAge))
+		case 16:
+			// alive in both compound shards at once (e.g. after an interrupted merge)
+			comp[0] = append(comp[0], id)
+			comp[1] = append(comp[1], id)
+			desc = "index:compound0+index:compound1"
 		case 15:
 			if tp.Gen(2) == 0 {
 				c := tp.Gen(2)
@@ -913,7 +920,7 @@ func runC32(t *testing.T, tp *simrt.Tape, faults bool) hx.Result {
 					}
 					if assigned[id] && len(before.live(id)) > 0 && c32Consistent(before.live(id)) && fmt.Sprint(healed.docs[id]) != fmt.Sprint(before.docs[id]) {
 						kind := "assigned-repository-changed"
-						if len(healed.docs[id]) == 0 {
+						if len(healed.docs[id]) == 0 || strings.Contains(fclass, "compound-shard-removed") {
 							kind = "assigned-repository-lost"
 						}
 						report(kind+"|after-recovery-cleanup|"+fclass, fmt.Sprintf("%s; then a fault-free cleanup: assigned repository %d was %v, now %v", fctx, id, before.docs[id], healed.docs[id]))
